@@ -27,6 +27,10 @@ def known_skip(feats, syn):
 
 
 KNOWN_CLASSES = {
+    # der_encoder.c: ASN1_DER_MAX_TAGS_COUNT 4 ("System limit on tags count")
+    "tagchain.four-or-more.der": lambda feats, syn: "tagchain>=4" in feats,
+    # by-design guard against compression bombs: > 200 zero-width elements are refused by the PER/OER decoders
+    "zero-width-elements.over-200.per-oer": lambda feats, syn: syn in ("uper", "oer") and "zero-width>200" in feats,
     # UPER strips trailing 0 bits of every BIT STRING, also of those without a NamedBitList
     "bitstring.trailing-zero-bits.uper": lambda feats, syn: syn == "uper" and "bits.trailing0" in feats,
     # PER constraint tables keep bounds in a C long: ranges reaching above 2^63-1 cannot be encoded
